@@ -80,6 +80,7 @@ def variants(algo, tier):
         out.append(("nn-[0]-linesearch-svd", {"init": "svd", "nn_modes": [0], "linesearch": True}))
         out.append(("nn-[0, 2]-linesearch-svd", {"init": "svd", "nn_modes": [0, 2], "linesearch": True}))
         out.append(("nn-[0]-normalize", {"init": "random", "nn_modes": [0], "linesearch": False, "normalize_factors": True}))
+        out.append(("nn-all-linesearch", {"init": "random", "nn_modes": "all", "linesearch": True}))
         out.append(("einsum-nn-[0, 2]", {"init": "random", "nn_modes": [0, 2], "linesearch": False, "tenalg": "einsum"}))
         out.append(("class-nn-[0, 2]-linesearch", {"init": "random", "nn_modes": [0, 2], "linesearch": True, "api": "class"}))
         out.append(("class-nn-all", {"init": "random", "nn_modes": "all", "api": "class"}))
@@ -131,7 +132,8 @@ def declared_modes(algo, cfg, ndim):
         return (list(range(ndim)) if nn is True else sorted({m % ndim for m in nn})), False, False
     if algo == "parafac2":
         nn = cfg.get("nn_modes")
-        modes = [0, 2] if nn == "all" else [m for m in nn if m != 1]
+        # mode 1: the factor B itself is non-negative when declared (documented); only the evolving B_i = P_i B are not
+        modes = [0, 1, 2] if nn == "all" else list(nn)
         return modes, False, False
     raise ValueError(algo)
 
@@ -143,7 +145,7 @@ class C10(Check):
     rule = ("state = iterate s_k, k = 0..K, of a fixed (algorithm, option set, data family, shape, rank) configuration (prefix runs) plus the state "
             "reached through the convergence exit; invariant min(entry) >= 0 (exactly) and finite on the declared modes / weights / core; "
             "a state is non-trivial iff the run did not raise and the data tensor is not identically reproduced")
-    assumptions = ["mode 1 (B) of PARAFAC2 is never demanded (documented as unsupported)",
+    assumptions = ["mode 1 of PARAFAC2: the factor B itself is demanded non-negative when mode 1 is declared (documented); the evolving factors B_i = P_i B are not (documented as impossible)",
                    "user initialisations are entrywise non-negative (with and without exact zeros)",
                    "exceptions on unsupported inputs are guarded out and counted"]
 
@@ -202,11 +204,9 @@ class C10(Check):
             accepted = not all(np.array_equal(np.asarray(a), b) for a, b in zip(f2, cur))
             ctx.outcome(f"parafac2-linesearch-seam:{'accepted' if accepted else 'rejected'}")
             for m in nn:
-                if m == 1:
-                    continue
                 a = np.asarray(f2[m])
                 if not np.all(np.isfinite(a)) or a.min() < 0:
-                    ctx.violation(f"parafac2-linesearch-seam/negative-factor-{'A' if m == 0 else 'C'}/accepted-step",
+                    ctx.violation(f"parafac2-linesearch-seam/negative-factor-{'ABC'[m]}/accepted-step",
                                   f"{case}: line_step(iteration={it}) with nn_modes={nn} keeps a step whose mode-{m} factor has min {a.min()}")
                     return
 
